@@ -372,7 +372,7 @@ def build_points(out, sub, grid, ref, d, gspec, check_mid=True):
         elif bias == "last":
             i = n - 1
         elif bias == "target":
-            i = max(j for j in range(n) if pts[j] <= tx)
+            i = max([j for j in range(n) if pts[j] <= tx] or [0])      # tx may lie outside a truncated domain
         else:
             i = s % n
         m, fb = lib_mid(grid, pts[i], pts[i + 1], d)
@@ -631,7 +631,26 @@ def run_moments(case):
 
     hist = dict(kind="dw", lmin=case["lmin"], lmax=case["lmax"], maxev=case["maxev"], maxsteps=case["maxsteps"],
                 tape=case["tape"], mode=case["mode"])
-    drive.run_history(sa, hist, on_eval=on_eval, before_refine=before_refine, after_refine=after_refine)
+    last_set = {}
+    orig_set_grid = grid.set_grid
+
+    def recording_set_grid(points, levels):
+        last_set["points"] = [[float(x) for x in p_] for p_ in points]
+        return orig_set_grid(points, levels)
+    grid.set_grid = recording_set_grid              # instance-level observer: which 1D grids were handed over last
+    try:
+        drive.run_history(sa, hist, on_eval=on_eval, before_refine=before_refine, after_refine=after_refine)
+    except AssertionError as e:
+        if "calculated negative weight" not in str(e) or "points" not in last_set:
+            raise
+        why = explain_negative_assert(op, refs, last_set["points"])
+        if why is None:
+            raise
+        out.bad(sub + SIG_FIRST_MOMENT, why)
+        out.cls("negative-weight-assertion")
+        return out
+    finally:
+        del grid.set_grid
     if st_["evals"] and not out.violations:
         with quiet():
             E, V = op.calculate_expectation_and_variance(sa)
